@@ -3,8 +3,11 @@ package main
 import (
 	"flag"
 	"fmt"
+	"io"
 	"os"
 	"strconv"
+
+	"github.com/sirupsen/logrus"
 )
 
 type propFn func(c *Collector, tier string, seed int64)
@@ -18,6 +21,9 @@ func main() {
 	oracle := flag.String("oracle", "/verif/lean/.lake/build/bin/oracle", "oracle binary")
 	child := flag.String("child", "", "internal: run a child-process case")
 	flag.Parse()
+	if os.Getenv("VERIF_LOG") == "" {
+		logrus.SetOutput(io.Discard)
+	}
 	if *child != "" {
 		runChild(*child, flag.Args())
 		return
